@@ -862,7 +862,7 @@ def main() -> int:
             "under read faults only returned data is judged and only corruptions every loader can detect are injected",
             "a loader that reaches storage by a route the stub does not serve is HARNESS-ERROR, not a verdict",
             "sampling, not enumeration",
-        ])
+        ], level="fault_enumeration")
     print(f"C18 {args.tier}: module={agg['module']} e2e={agg['e2e']} fault={agg['fault']} fresh={fresh_checked} "
           f"distinct={len(distinct)} nontrivial={len(nontrivial)} faults_fired={sum(faults.values())} "
           f"violations_seen={agg['violation_count']} unlisted_classes={unlisted} wall={wall:.1f}s")
